@@ -11,7 +11,7 @@ def cat(src, ln, op, det):
         if ln in (343,570): return EQ, "both sides clamp to 16 / pad of zero bytes"
         if ln==392: return LOG, "FlagsToString text"
         if ln==410: return OUT, "IsUnicast/IsBroadcast with reserved bits set"
-        if ln in (548,552): return EQ, "in-domain names are at most 63 / 127 octets"
+        if ln in (548,552): return "blind spot, closed afterwards", "names longer than their field: C07 scope a' (round 7)"
     if src=="dhcpv4/modifiers.go" and ln==61: return EQ, "New() already builds a BOOTREQUEST"
     if src=="dhcpv4/nclient4/client.go":
         if 196<=ln<=222: return UNR, "interface lookup / raw socket part of new()"
